@@ -735,7 +735,61 @@ def r20(ctx):
         ctx.ob('C18.R20', fn, r, bool(ok), 'end of a quoted argument', 'only where a character of the token equals the stored opening character %s: %s' % (nm, bool(ok)))
 
 
+def r21(ctx):
+    ctx.rule('C18.R21', 'the end of a request is found wherever the chunks were cut: RequestImpl::add searches the accumulated text '
+             'for the terminator from its beginning (find without start position, or 0) - searched from the previous length on, '
+             'the two-character HTTP terminator is missed when a chunk ends between its characters and the client waits for ever',
+             minimum=1)
+    fb = ctx.fb
+    fn = fb.fn('ebusd::RequestImpl::add')
+    ctx.touch(fn)
+    n = 0
+    for c in fn.calls('find'):
+        v = fn.nodes[c]
+        if 'obj' not in v or not fn.key(v['obj']).endswith('m_request') or not v.get('args'):
+            continue
+        k0 = fn.key(v['args'][0])
+        if '"\\n' not in k0 and '\\n' not in k0 and '#10' not in k0:
+            continue
+        n += 1
+        start = v['args'][1] if len(v['args']) > 1 else None
+        ok = start is None or fn.nodes[fn.strip(start, casts=True)].get('k') == 'CXXDefaultArgExpr' or fn.val(start) == 0
+        ctx.ob('C18.R21', fn, c, ok, 'search for the line terminator', 'from the beginning of the accumulated request: %s' % ok)
+    if n < 1:
+        raise AnalysisBroken('C18.R21: the search for the terminator in RequestImpl::add was not found')
+
+
+def r22(ctx):
+    ctx.rule('C18.R22', 'a topic template has no empty constant part: StringReplacer::addPart stores a part that is not a field '
+             '(push_back / emplace_back into m_parts behind the "append to the previous constant" case) only if its text is not '
+             'empty - an empty constant behind the last field makes match() search for "" and return an empty field value',
+             minimum=1)
+    fb = ctx.fb
+    fn = fb.fn('ebusd::StringReplacer::addPart')
+    ctx.touch(fn)
+    n = 0
+    infield = fn.P(1)
+    sv = None
+    for nid, d, rhs, op, lhs in fn.assignments():
+        if op == 'init' and rhs is not None and '.str()' in fn.key(rhs):
+            sv = d.split(':')[-1]
+    if sv is None:
+        raise AnalysisBroken('C18.R22: the text of the part was not recognised in addPart')
+    for c in fn.calls('push_back', 'emplace_back'):
+        v = fn.nodes[c]
+        if 'obj' not in v or not fn.key(v['obj']).endswith('m_parts'):
+            continue
+        n += 1
+        ok = fn.needs_one_of(c, [('%s.empty()' % sv, False), ('(%s.length() == #0)' % sv, False), ('(%s.size() == #0)' % sv, False),
+                                 ('(%s == #0)' % infield, False), ('(%s <= #0)' % infield, False)])
+        ctx.ob('C18.R22', fn, c, ok, 'part stored by addPart', 'a constant part only with non-empty text: %s' % ok)
+    if n < 1:
+        raise AnalysisBroken('C18.R22: no store into m_parts found in addPart')
+
+
 def run(ctx):
+    r21(ctx)
+    r22(ctx)
     r20(ctx)
     r19(ctx)
     import rules.common as _cmc
